@@ -112,6 +112,18 @@ func pt2Of(h string) (*bn.G2, bool) {
 	return g, true
 }
 
+func gtOf(h string) (*bn.GT, bool) {
+	b, ok := unhex(h)
+	if !ok || len(b) != 384 {
+		return nil, false
+	}
+	g := new(bn.GT)
+	if _, err := g.Unmarshal(b); err != nil {
+		return nil, false
+	}
+	return g, true
+}
+
 func errClass(err error) string {
 	if err == nil {
 		return "ok"
@@ -179,6 +191,11 @@ func complete(line string) string {
 		sigb, ok3 := unhex(w[3])
 		if ok1 && ok2 && ok3 {
 			return strings.Join([]string{w[0], w[1], w[2], w[3], w[4], hx.Hex(refG1(msg).Marshal()), pairOracle(pkb, msg, sigb, false)}, " ")
+		}
+	}
+	if len(w) >= 4 && w[0] == "verifyp" {
+		if msg, ok := unhex(w[2]); ok {
+			return strings.Join([]string{w[0], w[1], w[2], w[3], hx.Hex(refG1(msg).Marshal())}, " ")
 		}
 	}
 	if len(w) >= 3 && w[0] == "sign" {
@@ -318,6 +335,56 @@ func exec(line string) string {
 			return "bad-op"
 		}
 		return hx.Hex(new(bn.G1).ScalarMult(a, k).Marshal())
+	case (w[0] == "pair" || w[0] == "miller") && len(w) == 3:
+		a, ok1 := ptOf(w[1])
+		b, ok2 := pt2Of(w[2])
+		if !ok1 || !ok2 {
+			return "bad-op"
+		}
+		if w[0] == "pair" {
+			return hx.Hex(bn.Pair(a, b).Marshal())
+		}
+		if bytes.Equal(a.Marshal(), make([]byte, 64)) || len(b.Marshal()) == 1 {
+			return "bad-op"
+		}
+		return hx.Hex(bn.Miller(a, b).Marshal())
+	case w[0] == "gtmul" && len(w) == 3:
+		a, ok1 := gtOf(w[1])
+		b, ok2 := gtOf(w[2])
+		if !ok1 || !ok2 {
+			return "bad-op"
+		}
+		return hx.Hex(new(bn.GT).Add(a, b).Marshal())
+	case w[0] == "gtexp" && len(w) == 3:
+		a, ok1 := gtOf(w[1])
+		k, ok2 := bigDec(w[2])
+		if !ok1 || !ok2 {
+			return "bad-op"
+		}
+		return hx.Hex(new(bn.GT).ScalarMult(a, k).Marshal())
+	case w[0] == "gtconj" && len(w) == 2:
+		a, ok := gtOf(w[1])
+		if !ok {
+			return "bad-op"
+		}
+		return hx.Hex(new(bn.GT).Neg(a).Marshal())
+	case w[0] == "gtfin" && len(w) == 2:
+		a, ok := gtOf(w[1])
+		if !ok {
+			return "bad-op"
+		}
+		return hx.Hex(a.Finalize().Marshal())
+	case w[0] == "verifyp" && len(w) == 5:
+		pkb, ok1 := unhex(w[1])
+		msg, ok2 := unhex(w[2])
+		sigb, ok3 := unhex(w[3])
+		if !ok1 || !ok2 || !ok3 {
+			return "bad-op"
+		}
+		if groupsig.VerifySig(groupsig.ByteToPublicKey(pkb), msg, *groupsig.DeserializeSign(sigb)) {
+			return "accept"
+		}
+		return "reject"
 	case w[0] == "g2neg" && len(w) == 2:
 		a, ok := pt2Of(w[1])
 		if !ok {
@@ -907,14 +974,21 @@ func runCorr(a map[string]string) {
 		}
 		sigs := g.sigCandidates(sk, msg)
 		pks := g.pkCandidates(sk)
-		for _, s := range sigs {
+		for si, s := range sigs {
 			g.count("sig:" + s.class)
+			if si == 0 || (si+i)%9 == 1 {
+				// fully modelled verification: the model computes H(m) and both pairings itself
+				do("verifyp " + hx.Hex(pks[0].b) + " " + hx.Hex(msg) + " " + hx.Hex(s.b))
+			}
 			do("verify " + hx.Hex(pks[0].b) + " " + hx.Hex(msg) + " " + hx.Hex(s.b))
 			do("sigd " + hx.Hex(s.b))
 			do("g1u " + hx.Hex(s.b))
 		}
-		for _, k := range pks {
+		for ki, k := range pks {
 			g.count("pk:" + k.class)
+			if (ki+i)%7 == 2 {
+				do("verifyp " + hx.Hex(k.b) + " " + hx.Hex(msg) + " " + hx.Hex(sigs[0].b))
+			}
 			do("verify " + hx.Hex(k.b) + " " + hx.Hex(msg) + " " + hx.Hex(sigs[0].b))
 			do("verify-raw " + hx.Hex(k.b) + " " + hx.Hex(msg) + " " + hx.Hex(sigs[0].b))
 			do("pkd " + hx.Hex(k.b))
@@ -1026,6 +1100,36 @@ func runCorr(a map[string]string) {
 		do("jlin " + p + " " + k1.String() + " " + q + " " + k2.String())
 		do("jdbl " + p + " " + k1.String())
 	}
+	// pairing: every layer through the exported API (tower arithmetic on arbitrary GF(p^12) elements,
+	// Miller loop, final exponentiation, whole pairing), and verifications with NO oracle field
+	npair := 3
+	if thorough {
+		npair = 20
+	}
+	for i := 0; i < npair; i++ {
+		p1 := hx.Hex(g.point())
+		q1 := hx.Hex(new(bn.G2).ScalarBaseMult(g.sk()).Marshal())
+		do("pair " + p1 + " " + q1)
+		do("miller " + p1 + " " + q1)
+		x := r.Bytes(384)
+		y := r.Bytes(384)
+		if i%2 == 1 {
+			// elements of GT (unitary), where Conjugate is the inverse
+			x = bn.Pair(refG1(r.Bytes(4)), new(bn.G2).ScalarBaseMult(g.sk())).Marshal()
+		}
+		do("gtmul " + hx.Hex(x) + " " + hx.Hex(y))
+		do("gtmul " + hx.Hex(x) + " " + hx.Hex(x))
+		do("gtconj " + hx.Hex(x))
+		do("gtexp " + hx.Hex(x) + " " + g.scalar().String())
+		do("gtfin " + hx.Hex(y))
+		if t := twistCofactorPoint(r); t != nil && i == 0 {
+			do("pair " + p1 + " " + hx.Hex(t.Marshal())) // a twist point outside G2
+		}
+	}
+	do("pair " + hx.Hex(make([]byte, 64)) + " " + hx.Hex(bn.GetG2Base().Marshal()))
+	do("pair " + hx.Hex(g.point()) + " 00")
+	do("gtexp " + hx.Hex(r.Bytes(384)) + " 0")
+	do("gtfin " + hx.Hex(make([]byte, 384)))
 	// G2: twist arithmetic, key generation, key aggregation
 	for i := 0; i < narith/2; i++ {
 		k1, k2 := g.sk(), g.sk()
@@ -1136,6 +1240,9 @@ func main() {
 	switch a["mode"] {
 	case "search":
 		runSearch(a)
+	case "scenario":
+		// clean-process reference for the history check of the searcher
+		fmt.Println("DIGEST " + scenarioDigest(hx.SeedFromEnv()))
 	case "conc":
 		// concurrency phase alone (used with a -race build in the thorough tier)
 		g := &gen{r: hx.NewRng(hx.SeedFromEnv() ^ 0xc0c), class: map[string]int{}}
